@@ -29,6 +29,7 @@ import CookModel.Lemmas.DiagEventExact2
 import CookModel.Lemmas.DiagPlaceFam
 import CookModel.Lemmas.MetaValidator
 import CookModel.Lemmas.DiagPlaceDocInst
+import CookModel.Lemmas.DiagEventKinds
 /-
   C07  Diagnostics are sound, complete and placed on the offending construct.
 
@@ -3467,5 +3468,88 @@ example : ∃ (T tpre tB tpost : List Tok) (evsB : List (Ev Rat)),
         (by intro t h; cases h))
       (by decide) (by decide) (by decide)
   exact ⟨T, tpre, tB, tpost, evsB, h1, h2, h4, h6, h7⟩
+
+/-! ### Event level, every catalogued kind (wave 7, item 3)
+
+  `C07_ingredient_event_exact` / `C07_cookware_event_exact` restate the iff for `reference-not-found` and
+  `unnecessary-scaling-lock` only.  The kind lists of the parts of an event are pairwise disjoint
+  (`c07v_*_kinds`), so EVERY catalogued kind is raised by the event iff the one part that owns it runs and raises it;
+  the parts have their own exact iffs (`C07_resolve_reference_exact`: `ref-conflicting-modifiers`,
+  `reference-not-found`; `C07_reference_checks_exact(_cookware)`: `incompatible-units`, `note-in-reference`,
+  `conflicting-ref-quantity`, `text-value-in-ref`; below: the intermediate-reference kinds). -/
+
+/-- **An ingredient event, kind by kind.**  With the event's exact list `c07v_ingredientEventDiags` (what
+    `ingredient` of the analysis pass appends, `C07_ingredient_event_exact`): a diagnostic of kind `k` is in it
+    * `unnecessary-scaling-lock`: iff the lock part raises it;
+    * `inter-ref-conflicting-modifiers`: iff there is intermediate data `&(…)` and one of `@`, `-`, `+` is set;
+    * `inter-ref-self` / `-zero` / `-bounds`: iff there is intermediate data and the target computation
+      (`interRefTarget` on the content of the current section and the number of sections) fails with `k`;
+    * `ref-conflicting-modifiers`, `redundant-new`, `redundant-ref`, `reference-not-found`: iff there is NO
+      intermediate data and `resolve_reference` (`refDiags`) raises it;
+    * `incompatible-units`, `note-in-reference`, `conflicting-ref-quantity`, `text-value-in-ref`: iff there is no
+      intermediate data and the reference checks against the resolved entry (`c07v_ingrRefCheckDiags`: empty unless
+      `resolve_reference` resolved to a table entry) raise it. -/
+theorem C07_ingredient_event_kinds (env : Env) (input : Str) (li : Loc (PIngredient α))
+    (ings : Array (Ingredient (ScalableValue α))) (locs : Array (Loc (PIngredient α)))
+    (dm : DefineMode) (dup : DuplicateMode) (content : List Content) (n : Nat) (k : String) :
+    (k = "unnecessary-scaling-lock" →
+      ((∃ d ∈ c07v_ingredientEventDiags env input li ings locs dm dup content n, d.kind = k) ↔
+        ∃ d ∈ c07v_ingrLockDiags li.val.quantity, d.kind = k)) ∧
+    (k = "inter-ref-conflicting-modifiers" →
+      ((∃ d ∈ c07v_ingredientEventDiags env input li ings locs dm dup content n, d.kind = k) ↔
+        ∃ dd, li.val.inter = some dd ∧
+          (li.val.modifiers.val.bits &&& (Modifiers.RECIPE ||| Modifiers.HIDDEN ||| Modifiers.NEW)) ≠ 0)) ∧
+    (k ∈ c07k_interKinds →
+      ((∃ d ∈ c07v_ingredientEventDiags env input li ings locs dm dup content n, d.kind = k) ↔
+        ∃ dd, li.val.inter = some dd ∧ interRefTarget content n dd.val = .error k)) ∧
+    (k ∈ c07k_refKinds →
+      ((∃ d ∈ c07v_ingredientEventDiags env input li ings locs dm dup content n, d.kind = k) ↔
+        (li.val.inter = none ∧
+          ∃ d ∈ refDiags env c07v_ingrInherit (ings.toList.map (fun x => (x.name, x.modifiers)))
+            (c07v_igr0 env li dm).name li.val.modifiers.val li.span li.val.modifiers.span dm dup, d.kind = k))) ∧
+    (k ∈ c07k_checkKinds →
+      ((∃ d ∈ c07v_ingredientEventDiags env input li ings locs dm dup content n, d.kind = k) ↔
+        (li.val.inter = none ∧
+          ∃ d ∈ c07v_ingrRefCheckDiags env input li (c07v_igr0 env li dm) ings locs
+            (c07v_refResult env c07v_ingrInherit (ings.toList.map (fun x => (x.name, x.modifiers)))
+              (c07v_igr0 env li dm).name li.val.modifiers.val dm dup), d.kind = k))) := by
+  obtain ⟨h1, h2, h3, h4, h5⟩ := c07k_ingredientEvent_kind env input li ings locs dm dup content n k
+  refine ⟨h1, fun hk => ?_, fun hk => ?_, h4, h5⟩
+  · rw [h2 hk]; subst hk
+    simp only [c07k_interCheck_iff]
+  · rw [h3 hk]
+    simp only [c07k_interRef_iff]
+
+/-- **A cookware event, kind by kind**: `unnecessary-scaling-lock` iff the lock part raises it (iff the amount
+    carries `=`); the four kinds of `resolve_reference` iff `refDiags` (container "cookware item") raises them; the
+    check kinds iff the checks against the resolved entry raise them. -/
+theorem C07_cookware_event_kinds (env : Env) (input : Str) (lc : Loc (PCookware α))
+    (cws : Array (Cookware (ScalableValue α))) (locs : Array (Loc (PCookware α)))
+    (dm : DefineMode) (dup : DuplicateMode) (k : String) :
+    (k = "unnecessary-scaling-lock" →
+      ((∃ d ∈ c07v_cookwareEventDiags env input lc cws locs dm dup, d.kind = k) ↔
+        ∃ d ∈ c07v_cwLockDiags lc.val.quantity, d.kind = k)) ∧
+    (k ∈ c07k_refKinds →
+      ((∃ d ∈ c07v_cookwareEventDiags env input lc cws locs dm dup, d.kind = k) ↔
+        ∃ d ∈ refDiags env c07v_cwInherit (cws.toList.map (fun x => (x.name, x.modifiers)))
+          (lc.val.name.trimmed env.cs) lc.val.modifiers.val lc.span lc.val.modifiers.span dm dup, d.kind = k)) ∧
+    (k ∈ c07k_checkKinds →
+      ((∃ d ∈ c07v_cookwareEventDiags env input lc cws locs dm dup, d.kind = k) ↔
+        ∃ d ∈ c07v_cwRefCheckDiags input lc (c07v_cw0 env lc dm) cws locs
+          (c07v_refResult env c07v_cwInherit (cws.toList.map (fun x => (x.name, x.modifiers)))
+            (lc.val.name.trimmed env.cs) lc.val.modifiers.val dm dup), d.kind = k)) :=
+  c07k_cookwareEvent_kind env input lc cws locs dm dup k
+
+/-! non-vacuity: the kind lists; on `C07_evRefSalt` (`@&salt{=x}(n)` against the definition `@salt{1}`) the check
+    kinds `note-in-reference` and `text-value-in-ref` are raised, `reference-not-found` is not; an ingredient with
+    intermediate data and `+` raises `inter-ref-conflicting-modifiers` -/
+example : "note-in-reference" ∈ c07k_checkKinds ∧ "reference-not-found" ∈ c07k_refKinds ∧
+    "inter-ref-zero" ∈ c07k_interKinds := by decide
+example : (∃ d ∈ c07v_ingredientEventDiags C01_toyEnv [] C07_evRefSalt C07_evState.ingredients C07_evState.locIngr
+      C07_evState.defineMode C07_evState.duplicateMode C07_evState.cur.content C07_evState.sections.length,
+      d.kind = "note-in-reference") ∧ C07_evRefSalt.val.inter = none :=
+  ⟨⟨⟨.error, .analysis, "note-in-reference", [⟨21, 22⟩, ⟨8, 8⟩]⟩, by decide, rfl⟩, rfl⟩
+example : ((⟨Modifiers.REF ||| Modifiers.NEW⟩ : Modifiers).bits &&&
+    (Modifiers.RECIPE ||| Modifiers.HIDDEN ||| Modifiers.NEW)) ≠ 0 := by decide
 
 end Cook
